@@ -225,7 +225,7 @@ type Menu struct {
 
 // buildMenu enumerates the atomic options for a tree, simplest first. It is written against the tree only
 // (which paths exist), not against the routing model.
-func buildMenu(t *Tree) *Menu {
+func buildMenu(t *Tree, quick bool) *Menu {
 	m := &Menu{}
 	// key universe: every key used anywhere, plus one that is used nowhere
 	keys := map[string]bool{"zz": true}
@@ -250,7 +250,7 @@ func buildMenu(t *Tree) *Menu {
 	//  - at the top graph and below every graph node: every key of the universe that is not a node there
 	//    (covers: unknown key, a key that exists only at another nesting level - e.g. designating an inner
 	//    node by key only from the top-level call -, a key of a sibling sub-graph)
-	//  - below every non-graph node: its own key and the unknown key
+	//  - below every non-graph node: the first key of the top graph (thorough: also its own key)
 	addUnknown := func(prefix []string, g *Graph) {
 		for _, k := range universe {
 			if g.find(k) == nil {
@@ -266,8 +266,10 @@ func buildMenu(t *Tree) *Menu {
 	}
 	for _, n := range t.All {
 		if !n.isGraph() {
-			m.Invalid = append(m.Invalid, append(append([]string{}, n.Path...), n.Key))
 			m.Invalid = append(m.Invalid, append(append([]string{}, n.Path...), t.Root.Nodes[0].Key))
+			if !quick {
+				m.Invalid = append(m.Invalid, append(append([]string{}, n.Path...), n.Key))
+			}
 		}
 	}
 	m.Invalid = dedupPaths(m.Invalid)
@@ -280,8 +282,14 @@ func buildMenu(t *Tree) *Menu {
 			m.Atoms = append(m.Atoms, Atom{T: ty, Paths: [][]string{p}})
 		}
 	}
+	// paths that resolve to no node: whether they are an error cannot depend on the option's type, so the
+	// quick tier uses one option type per constructor (WithLambdaOption, withComponentOption, WithCallbacks)
+	invTypes := optTypes
+	if quick {
+		invTypes = []string{"X", "T", "CB"}
+	}
 	for _, p := range m.Invalid {
-		for _, ty := range optTypes {
+		for _, ty := range invTypes {
 			m.Atoms = append(m.Atoms, Atom{T: ty, Paths: [][]string{p}})
 		}
 	}
@@ -325,23 +333,23 @@ func dedupPaths(ps [][]string) [][]string {
 // graph menus per tier
 
 var quickSpecs = []string{
-	"G[a:X b:Y c:P]",                      // flat, lambdas of two option types and a plain one
-	"G[a:M b:T c:X]",                      // flat, chat model + tools node + lambda
-	"G[a:X g:G[a:X b:Y]]",                 // same key at two levels
-	"G[a:X g:G[b:X] b:Y]",                 // inner key b also exists at top with another type; a only at top
-	"G[g:G[a:X b:M c:U] h:G[a:Y b:X]]",    // sibling sub-graphs sharing keys with different kinds
-	"G[a:W b:T g:C[a:M b:T]]",             // chain nested in graph, components at both levels under same keys
-	"C[a:X g:C[a:X b:Y]]",                 // chain in chain
-	"F[a:X g:F[a:Y b:M c:T]]",             // workflow in workflow
-	"G[a:X p:Z g:G[p:Z a:X]]",             // passthrough nodes (non-graph nodes without an option type)
+	"G[a:X b:Y c:P]",                   // flat, lambdas of two option types and a plain one
+	"G[a:M b:T c:X]",                   // flat, chat model + tools node + lambda
+	"G[a:X g:G[a:X b:Y]]",              // same key at two levels
+	"G[a:X g:G[b:X] b:Y]",              // inner key b also exists at top with another type; a only at top
+	"G[g:G[a:X b:M c:U] h:G[a:Y b:X]]", // sibling sub-graphs sharing keys with different kinds
+	"G[a:W b:T g:C[a:M b:T]]",          // chain nested in graph, components at both levels under same keys
+	"C[a:X g:C[a:X b:Y]]",              // chain in chain
+	"F[a:X g:F[a:Y b:M c:T]]",          // workflow in workflow
+	"G[a:X p:Z g:G[p:Z a:X]]",          // passthrough nodes (non-graph nodes without an option type)
 }
 
 var thoroughSpecs = []string{
-	"G[a:X g:G[a:X g:G[a:X b:M c:T]]]",              // the same keys a, g at three levels
-	"G[g:G[g:G[a:X] a:Y] h:G[g:G[a:Y] a:X]]",        // prefixes g/g and h/g lead to different kinds under the same keys
-	"C[a:X g:F[a:Y g:G[a:X b:Y]]]",                  // chain > workflow > graph
-	"F[a:W b:T g:G[a:X h:C[a:M b:T c:X]]]",          // workflow > graph > chain with components
-	"G[a:X g:G[p:Z g:G[p:Z a:X]]]",                  // passthrough at depth 2 and 3
+	"G[a:X g:G[a:X g:G[a:X b:M c:T]]]",       // the same keys a, g at three levels
+	"G[g:G[g:G[a:X] a:Y] h:G[g:G[a:Y] a:X]]", // prefixes g/g and h/g lead to different kinds under the same keys
+	"C[a:X g:F[a:Y g:G[a:X b:Y]]]",           // chain > workflow > graph
+	"F[a:W b:T g:G[a:X h:C[a:M b:T c:X]]]",   // workflow > graph > chain with components
+	"G[a:X g:G[p:Z g:G[p:Z a:X]]]",           // passthrough at depth 2 and 3
 }
 
 func specsFor(quick bool) []string {
